@@ -2295,9 +2295,10 @@ def convert_mean_to_depthwise_conv(op, arch, nng):
         ifm_shape = full_shape(4, ifm_shape, 1)
         intermediate_shape = full_shape(4, intermediate_shape, 1)
 
-        # If all dimensions to reduce have shape 1, the operation is essentially a memcpy.
+        # If all dimensions to reduce have shape 1, the operation is essentially a memcpy, provided that the
+        # input and the output have the same quantisation (otherwise the values still have to be requantised).
         # We can then remove the whole op by propagating ofm to previous ops
-        if not any([reduce_axis[i] and ifm_shape[i] > 1 for i in range(4)]):
+        if not any([reduce_axis[i] and ifm_shape[i] > 1 for i in range(4)]) and ifmq.is_scaling_equal(ofmq):
             op.type = Op.Memcpy
             op = bypass_memory_only_ops(op, arch, nng)
             return op
